@@ -11,6 +11,7 @@ import TonVerif.Drv.Builder
 import TonVerif.Drv.BocParse
 import TonVerif.Drv.Proof
 import TonVerif.Drv.Message
+import TonVerif.Drv.Tlb
 
 open TonVerif TonVerif.Drv
 
@@ -21,6 +22,7 @@ def handlers : List (String → List String → Option String) := [
   BocParse.handle?
   Proof.handle?
   Msg.handle?
+  Tlb.handle?
 ]
 
 def handle (op : String) (args : List String) : String :=
